@@ -93,6 +93,29 @@ func (u *Unit) evalCall(st *State, call *ast.CallExpr) []Value {
 	}
 	fi := u.prog.ByObj[fnObj.Origin()]
 	if fi == nil {
+		if sig, ok := fnObj.Type().(*types.Signature); ok && sig.Recv() != nil && recv != nil && strings.HasPrefix(recv.Str, "opaque:") {
+			// method of an opaque object of another package held in package state (an atomic slot in
+			// a struct field, …). Its state is outside the model: results are arbitrary, and every
+			// method except a pure load counts as a write to state that no contract declares.
+			for _, a := range call.Args {
+				u.eval(st, a)
+			}
+			u.opaqueUsed = true
+			if fnObj.Name() != "Load" {
+				u.oblige(st, "writes", "writes:foreign-state:"+u.site("write"), append([]string{"C19", "C11"}, u.fnProps()...), False)
+			}
+			var out []Value
+			for i := 0; i < sig.Results().Len(); i++ {
+				rt := sig.Results().At(i).Type()
+				if p, ok := rt.(*types.Pointer); ok {
+					if _, isTP := p.Elem().(*types.TypeParam); isTP && len(targs) > 0 {
+						rt = types.NewPointer(targs[0])
+					}
+				}
+				out = append(out, u.freshValue(st, rt, fmt.Sprintf("ext%d", u.nextBound())))
+			}
+			return out
+		}
 		u.errorf("%s: call to function without source %s", u.pos(call), fnObj.FullName())
 		return nil
 	}
